@@ -69,6 +69,22 @@ def run(ctx, driver):
     objs = []
     objs.append(("mel", [], S.MelScaling()))
     objs.append(("bark", [], S.BarkScaling()))
+    # the same scales as a configuration names them: resolved through the alias registry once the whole package is
+    # imported (any subclass registered anywhere under these aliases is what users get)
+    import importlib
+    for m in ("filters", "compute", "pre", "post", "util", "corpus", "command_line"):
+        try:
+            importlib.import_module("pydrobert.speech." + m)
+        except Exception:
+            ctx.count("import_failed:" + m)
+    for name, al, args in (("mel", "mel", []), ("bark", "bark", []), ("linear", "linear", [20.0, 0.5]), ("octave", "octave", [440.0])):
+        try:
+            o = S.ScalingFunction.from_alias(al, *args)
+        except Exception as e:
+            ctx.violation(dict(scale=name, via="registry"), "an object", "%s: %s" % (type(e).__name__, e), "the documented alias resolves",
+                          tags=dict(scale=name, clause="registry_resolves"))
+            continue
+        objs.append((name, args, o))
     # fixed parameter corners first (never left to the RNG): tiny positive octave references (both directions must
     # clamp low_hz the same way), the clamp value itself, ordinary ones; linear offsets / slopes
     for lo in (1e-12, 2.5e-11, 1e-10, 1.0, 440.0):
